@@ -773,6 +773,14 @@ def fftMulInvRef? (A : Arith K) (a b : Array Int) (n : Nat) : Except Panic (List
     | .error e => .error e
     | .ok fb => fftInvIntoRef? A (pointwise A fa fb) (List.replicate (pointwise A fa fb).size 0)
 
+def fftMulInvIntoRef? (A : Arith K) (a b : Array Int) (n : Nat) (res : List Int) : Except Panic (List Int) :=
+  match fftIntoRef? A a n (Array.replicate (fftSize a.size n) A.zero) with
+  | .error e => .error e
+  | .ok fa =>
+    match fftIntoRef? A b n (Array.replicate (fftSize b.size n) A.zero) with
+    | .error e => .error e
+    | .ok fb => fftInvIntoRef? A (pointwise A fa fb) res
+
 /-- The result of a call as a function of its arguments only. -/
 def resultRef (A : Arith K) : Op K → Except Panic (Out K)
   | .updateN n => if n = 0 then .error .overflow else if !isPow2 n then .error .assert else .ok .unit
@@ -784,6 +792,7 @@ def resultRef (A : Arith K) : Op K → Except Panic (Out K)
   | .fftInvInto v res => (fftInvIntoRef? A v res).map .ints
   | .fftMulInv a b n => (fftMulInvRef? A a b n).map .ints
   | .fftMulInvFresh a b n => (fftMulInvRef? A a b n).map .ints
+  | .fftMulInvInto a b n res => (fftMulInvIntoRef? A a b n res).map .ints
 
 theorem updateN?_reach (A : Arith K) (s : State K) (hs : Reach A s) (n : Nat) :
     (updateN? A s n = if n = 0 then .error .overflow else if !isPow2 n then .error .assert else .ok (updateNCore A s n))
@@ -880,6 +889,20 @@ theorem fftMulInv?_reach (A : Arith K) (s : State K) (hs : Reach A s) (sInv : Op
         · rw [h5, h6]; exact Or.inl ⟨_, rfl, rfl⟩
         · rw [h5, h6]; exact Or.inr ⟨_, _, rfl, rfl, hr2⟩
 
+theorem fftMulInvInto?_reach (A : Arith K) (s : State K) (hs : Reach A s) (a b : Array Int) (n : Nat) (res : List Int) :
+    (∃ e, fftMulInvInto? A s a b n res = .error e ∧ fftMulInvIntoRef? A a b n res = .error e) ∨
+    (∃ s' r, fftMulInvInto? A s a b n res = .ok (s', r) ∧ fftMulInvIntoRef? A a b n res = .ok r ∧ Reach A s') := by
+  unfold fftMulInvInto? fftMulInvIntoRef? fft?
+  rcases fftInto?_reach A s hs a n (Array.replicate (fftSize a.size n) A.zero) with ⟨e, h1, h2⟩ | ⟨s1, fa, h1, h2, hr1⟩
+  · rw [h1, h2]; exact Or.inl ⟨_, rfl, rfl⟩
+  · rw [h1, h2]
+    simp only []
+    rcases fftInto?_reach A s1 hr1 b n (Array.replicate (fftSize b.size n) A.zero) with ⟨e, h3, h4⟩ | ⟨s2, fb, h3, h4, hr2⟩
+    · rw [h3, h4]; exact Or.inl ⟨_, rfl, rfl⟩
+    · rw [h3, h4]
+      simp only []
+      exact fftInvInto?_reach A s2 hr2 (pointwise A fa fb) res
+
 /-- Every call on a reachable object returns what `resultRef` says (a function of the arguments
     only), and leaves a reachable object. -/
 theorem call_reach (A : Arith K) (s : State K) (hs : Reach A s) (op : Op K) :
@@ -932,6 +955,11 @@ theorem call_reach (A : Arith K) (s : State K) (hs : Reach A s) (op : Op K) :
   | fftMulInvFresh a b n =>
     simp only [call, resultRef]
     rcases fftMulInv?_reach A s hs (some (new A)) (fun _ h => by cases h; exact reach_new A) a b n with ⟨e, h1, h2⟩ | ⟨s1, r, h1, h2, hr⟩
+    · rw [h1, h2]; exact ⟨rfl, hs⟩
+    · rw [h1, h2]; exact ⟨rfl, hr⟩
+  | fftMulInvInto a b n res =>
+    simp only [call, resultRef]
+    rcases fftMulInvInto?_reach A s hs a b n res with ⟨e, h1, h2⟩ | ⟨s1, r, h1, h2, hr⟩
     · rw [h1, h2]; exact ⟨rfl, hs⟩
     · rw [h1, h2]; exact ⟨rfl, hr⟩
 
